@@ -573,17 +573,13 @@ def fe_corruptions():
         return recs
 
     def two_issues_same_unit_same_simd(recs, rng):
-        i = pick(recs, rng, lambda r: True)
-        dup = dict(recs[i])
-        # a second instruction of the same class, same SIMD, same cycle (by the same wavefront's next id)
-        nxt = [j for j in issues(recs) if j > i and recs[j]['w'] == dup['w']]
-        if not nxt:
+        # two instructions of one cycle (different SIMDs in the real trace) reported for the same SIMD and unit class
+        idx = issues(recs)
+        c = [(a, b) for a, b in zip(idx, idx[1:]) if recs[a]['t'] == recs[b]['t'] and recs[a]['w'] != recs[b]['w']]
+        if not c:
             return None
-        j = nxt[0]
-        recs[j]['t'], recs[j]['cls'], recs[j]['simd'], recs[j]['rr'] = dup['t'], dup['cls'], dup['simd'], dup['rr']
-        # keep it adjacent to the first one
-        r = recs.pop(j)
-        recs.insert(i + 1, r)
+        a, b = rng.choice(c)
+        recs[b]['simd'], recs[b]['cls'] = recs[a]['simd'], recs[a]['cls']
         return recs
 
     def younger_wavefront_first(recs, rng):
